@@ -140,12 +140,12 @@ func VerifHarness_C15_DefaultOutputFile() {
 // and the package of every function named by extend / map|FUNC / default - so that "the existing package at
 // that location" can be found for each of them.
 func VerifHarness_C15_GetPackages() {
-	n := 1 + nondetChoice("converters", 3)
+	n := 1 + nondetChoice("converters", 2)
 	globalFile := nondetChoice("global.output:file", 3) // 0 none, 1 relative, 2 @cwd/
 	globalExtend := nondetChoice("global.extend", 2) == 1
 	raw := &Raw{WorkDir: "/work"}
 	if globalFile == 1 {
-		raw.Global.Lines = append(raw.Global.Lines, "output:file ./out/gen.go")
+		raw.Global.Lines = append(raw.Global.Lines, "output:file ./earlier/gen.go", "output:file ./out/gen.go")
 	} else if globalFile == 2 {
 		raw.Global.Lines = append(raw.Global.Lines, "output:file @cwd/shared/gen.go")
 	}
@@ -158,8 +158,12 @@ func VerifHarness_C15_GetPackages() {
 	methodFn := make([]int, n)
 	for i := 0; i < n; i++ {
 		rc := RawConverter{PackagePath: "example.org/m/" + names[i], FileName: "/work/" + names[i] + "/in.go", Methods: map[string]RawLines{}}
-		ownFile[i] = nondetChoice("converter.output:file", 2)
-		if ownFile[i] == 1 {
+		ownFile[i] = nondetChoice("converter.output:file", 3)
+		if ownFile[i] == 2 {
+			// two lines on one level: the last one decides where the file goes (and which package is looked at)
+			rc.Converter.Lines = append(rc.Converter.Lines, "output:file ../first"+names[i]+"/x.go")
+		}
+		if ownFile[i] >= 1 {
 			rc.Converter.Lines = append(rc.Converter.Lines, "output:file ../gen"+names[i]+"/x.go")
 		}
 		ownExtend[i] = nondetChoice("converter.extend", 2) == 1
@@ -184,7 +188,7 @@ func VerifHarness_C15_GetPackages() {
 		pkg := "example.org/m/" + names[i]
 		verifAssert("own-package-loaded", got["pattern="+pkg])
 		verifAssert("default-generated-package-loaded", got["pattern="+pkg+"/generated"])
-		if ownFile[i] == 1 {
+		if ownFile[i] >= 1 {
 			verifAssert("converter-output-file-package-loaded", got["pattern=example.org/m/gen"+names[i]])
 		}
 		if globalFile == 1 {
